@@ -5,7 +5,8 @@
    from Gen/HeapqIdx.v on every run. *)
 From Coq Require Import ZArith List Permutation Sorted.
 Import ListNotations.
-From Mds Require Import Heapq.HeapqModel Heapq.HeapqSpec Heapq.HeapqHist Heapq.HeapqOrder Heapq.HeapqRepaired.
+From Mds Require Import Heapq.HeapqModel Heapq.HeapqSpec Heapq.HeapqHist Heapq.HeapqOrder Heapq.HeapqRepaired
+  Heapq.HeapqTriggerSpec Heapq.HeapqTriggers.
 Local Open Scope Z_scope.
 
 (* Contents, for EVERY variant, every element type, every comparison function (no contract), every
@@ -75,18 +76,80 @@ Example C05_full_repaired_example :
 Proof. split; [split; [exact zcmp_total_preorder|apply HeapqHeap.heap_ok_nil]|vm_compute; reflexivity]. Qed.
 
 (* The same statement is FALSE of the pinned variant (C05_min_refuted_F1/_F2 below).  What is
-   proved for EVERY variant, hence for the code as it is: the statement for histories that only ever
-   sift down (HeapqSpec.down_only: Add only into an empty queue, Remove only at the root or out of
-   range; Set, Reorder, NewWithData, Clear, New, Pop, Front, Peek, Len, IsEmpty, Each unrestricted). *)
+   proved for EVERY variant, hence for the code as it is, is the statement for every operation
+   OUTSIDE THE TRIGGERS of the two findings (HeapqTriggerSpec.v):
+     Add(x) at offset n = Len is outside the F1 trigger when  n <= 2,  or n + 1 is a power of two
+       (n = 3, 7, 15, ...: pushUp meets only odd indexes, where i/2 is the parent),  or x is neither
+       below data[n/2] nor below its true parent data[(n-1)/2] (it stays where it was appended);
+       [or the variant has the parent repaired];
+     Remove(i) is outside the F2 trigger when  i <= 0,  or i >= Len - 1,  or the last element (the
+       one moved into slot i) is not below data[(i-1)/2], the parent of slot i
+       [or the variant has both switches repaired];
+     Pop, Front, Peek, Set, Reorder, Clear, New, NewWithData, Len, IsEmpty, Each: always.
+   First form: from EVERY state, EVERY history (comparison functions keeping New's contract), no
+   guard: no step fails; Set/Reorder/Clear/New/NewWithData leave the queue ordered whatever it was;
+   a queue of at most one element is ordered; and from an ordered queue an operation outside the
+   triggers answers Front/Pop with a minimal held element and leaves the queue ordered.  So Front/Pop
+   are minimal wherever no trigger has occurred since the last reset. *)
+Theorem C05_min_since_reset : forall (T : Type) (v : variant) (ops : list (op T)) (q : queue T),
+  total_preorder T (qcmp q) -> hist_since_reset T v q ops.
+Proof. exact hist_since_reset_all. Qed.
+Print Assumptions C05_min_since_reset.
+
+(* Second form (guarded): every history all of whose operations are outside the triggers. *)
 Theorem C05_min_partial : forall (T : Type) (v : variant) (ops : list (op T)) (q : queue T), inv T q ->
-  hist T (fun q o => op_wf T o /\ down_only T q o) (min_answer T) v q ops.
-Proof. exact hist_min_down_only. Qed.
+  hist T (fun q o => op_wf T o /\ outside_triggers T v q o) (min_answer T) v q ops.
+Proof. exact hist_min_outside_triggers. Qed.
 Print Assumptions C05_min_partial.
 
+(* the guard admits: Adds at offsets 0, 1, 2, 3, an in-order Add at offset 4 (9 is not below
+   data[2] = 5 nor below data[1] = 2), a Remove(3) whose moved element 9 is not below data[1] *)
 Example C05_min_partial_example :
-  pop_values Z (run Z pinned (New Z zcmp) [OSet [5; 3; 8; 1; 9; 2; 7]; OPop; OReorder (fun a b => zcmp b a); OPop; OFront])
-  = [1; 9; 8].
+  let q := {| data := [1; 2; 5; 3]; qcmp := zcmp |} in
+  pop_values Z (run Z pinned (New Z zcmp) [OAdd 5; OAdd 3; OAdd 2; OAdd 1; OAdd 9; ORemove 3; OPop; OPop; OPop; OPop]) = [3; 1; 2; 5; 9] /\
+  option_map (@data Z) (exec Z pinned (New Z zcmp) [OAdd 5; OAdd 3; OAdd 2; OAdd 1]) = Some (data q) /\
+  inv Z q /\ add_outside_F1 Z pinned q 9 /\ ~ (len (data q) <= 2) /\
+  remove_outside_F2 Z pinned {| data := [1; 2; 5; 3; 9]; qcmp := zcmp |} 3.
+Proof.
+  split; [vm_compute; reflexivity|]. split; [vm_compute; reflexivity|].
+  split; [split; [exact zcmp_total_preorder|]|].
+  { apply heap_okb_true. vm_compute. reflexivity. }
+  split; [|split; [vm_compute; intros H; apply H; reflexivity|]].
+  - right. right. right. intros a b Ha Hb. vm_compute in Ha, Hb. inversion Ha; inversion Hb; subst.
+    split; vm_compute; discriminate.
+  - right. right. right. split; [reflexivity|]. intros last par Ha Hb. vm_compute in Ha, Hb.
+    inversion Ha; inversion Hb; subst. vm_compute. discriminate.
+Qed.
+
+(* ... hence a drain of an ordered queue is non-decreasing under EVERY variant (the code as it is):
+   in particular after Set/Reorder/NewWithData, or after any history outside the triggers *)
+Theorem C05_drain_sorted_ordered : forall (T : Type) (v : variant) (n : nat) (q : queue T), inv T q ->
+  Sorted (fun a b => qcmp q a b <= 0) (pop_values T (run T v q (repeat OPop n))).
+Proof. exact drain_sorted_any. Qed.
+Print Assumptions C05_drain_sorted_ordered.
+
+Example C05_drain_sorted_ordered_example :
+  pop_values Z (run Z pinned (New Z zcmp) (OSet [5; 3; 8; 1; 9; 2; 7; 3] :: repeat OPop 9)) = [1; 2; 3; 3; 5; 7; 8; 9].
 Proof. vm_compute. reflexivity. Qed.
+
+(* The F2 condition cannot be weakened: under a pop that never sifts up (the pinned code), Remove(i)
+   on an ordered queue leaves it ordered IF AND ONLY IF it is outside the trigger. *)
+Theorem C05_F2_trigger_exact : forall (T : Type) (v : variant) (q : queue T) (i : Z) (q' : queue T) (r : out T) (m : moves T),
+  pop_no_siftup v = true -> inv T q -> 0 <= i < len (data q) ->
+  step T v q (ORemove i) = Ok (q', (r, m)) -> (ordered T q' <-> remove_outside_F2 T v q i).
+Proof. exact remove_F2_exact. Qed.
+Print Assumptions C05_F2_trigger_exact.
+
+(* The index part of the F1 condition cannot be weakened (offsets up to 30): at each offset other
+   than 0, 1, 2, 3, 7, 15 the table holds an ordered queue l of that length (Set(l) keeps it) and an
+   element x such that the pinned Add(x) loses heap order (f1_breaks). *)
+Theorem C05_F1_trigger_exact_small :
+  map (fun w => len (fst w)) f1_witnesses = [4; 5; 6; 8; 9; 10; 11; 12; 13; 14; 16; 17; 18; 19; 20; 21; 22; 23; 24; 25; 26; 27; 28; 29; 30] /\
+  map (fun w => add_index_safeb (len (fst w))) f1_witnesses = repeat false 25 /\
+  map add_index_safeb [0; 1; 2; 3; 7; 15] = repeat true 6 /\
+  Forall (f1_breaks pinned) f1_witnesses.
+Proof. exact add_F1_exact_small. Qed.
+Print Assumptions C05_F1_trigger_exact_small.
 
 (* The pinned switches refute the full statement.  F1 (only Adds and root Pops, so only pushUp's
    parent index is involved): after the history the queue holds [15;13;18;18;19] and Pop answers 15
